@@ -2,6 +2,7 @@
 # seed_ingest.sh <Cxx> <A|B> : copy an agent's seeded change into /verif/seeded/<Cxx>-<A|B>/ and verify it
 # in a scratch worktree of /repo HEAD: patch applies, repo suite passes with it, demo fails with it and
 # passes without it.  Writes verify.json next to the patch.
+# SEED_DEMO_FLAGS (e.g. --features serde-json) and SEED_DEMO_ENV (e.g. RUST_BIGDECIMAL_DEFAULT_PRECISION=1) apply to the demo runs only.
 set -u
 P=$1; V=$2
 SRC=/tmp/out-$P
@@ -19,9 +20,9 @@ applies=false; suite=unknown; demo_with=unknown; demo_without=unknown
 if git apply --check $DST/patch.diff 2>/dev/null; then applies=true; fi
 if $applies; then
   mkdir -p tests; cp $DST/demo.rs tests/seed_demo.rs
-  if timeout 900 cargo test --offline --test seed_demo >/tmp/verify-$P-$V.without.log 2>&1; then demo_without=pass; else demo_without=fail; fi
+  if timeout 900 env ${SEED_DEMO_ENV:-} cargo test --offline ${SEED_DEMO_FLAGS:-} --test seed_demo >/tmp/verify-$P-$V.without.log 2>&1; then demo_without=pass; else demo_without=fail; fi
   git apply $DST/patch.diff
-  if timeout 900 cargo test --offline --test seed_demo >/tmp/verify-$P-$V.with.log 2>&1; then demo_with=pass; else demo_with=fail; fi
+  if timeout 900 env ${SEED_DEMO_ENV:-} cargo test --offline ${SEED_DEMO_FLAGS:-} --test seed_demo >/tmp/verify-$P-$V.with.log 2>&1; then demo_with=pass; else demo_with=fail; fi
   rm -rf tests
   if timeout 1500 cargo nextest run --workspace --no-fail-fast --test-threads 8 --offline >/tmp/verify-$P-$V.suite.log 2>&1; then suite=pass; else suite=fail; fi
   tail -3 /tmp/verify-$P-$V.suite.log | grep -o "[0-9]* passed.*" > $DST/suite_summary.txt
@@ -29,6 +30,6 @@ fi
 cd /; git -C /repo worktree remove --force $WT
 head=$(git -C /repo rev-parse --short HEAD)
 cat > $DST/verify.json <<J
-{"property": "$P", "variant": "$V", "repo_head": "$head", "patch_applies": $applies, "repo_suite_with_patch": "$suite", "demo_with_patch": "$demo_with", "demo_without_patch": "$demo_without"}
+{"property": "$P", "variant": "$V", "repo_head": "$head", "patch_applies": $applies, "repo_suite_with_patch": "$suite", "demo_with_patch": "$demo_with", "demo_without_patch": "$demo_without", "demo_flags": "${SEED_DEMO_FLAGS:-}", "demo_env": "${SEED_DEMO_ENV:-}"}
 J
 cat $DST/verify.json
